@@ -27,6 +27,7 @@ CONSTANTS Inst,         \* instance ids
           FaultSites,   \* subset of {"core","block","inline","inline2","render","highlight","reset_body"}
           MaxCtx,       \* nesting bound of reset_rules blocks
           MaxDepth,     \* history bound
+          ChainToggleChains, \* chains whose ruler API is called directly (subset of Chain)
           Variant
 
 VARIABLES live, plug, active, opts, rr, ctx,   \* per instance
@@ -188,6 +189,20 @@ Toggle(op, i, names, ign) ==
     /\ Log([op |-> op, i |-> i, names |-> names, ign |-> ign,
             out |-> IF Missed(i, names) # {} /\ ~ign THEN "ValueError" ELSE "ok"])
 
+(* the ruler API of ONE chain of an instance (md.block.ruler, md.inline.ruler2, ...), with ignoreInvalid:
+   the only way to put a rule name that two chains share (emphasis, strikethrough, linkify) into
+   different states in the two chains *)
+ChainHit(i, c, names) == {U(c, n) : n \in names} \cap Registered(i)
+ChainToggle(kind, i, c, names) ==
+    /\ live[i]
+    /\ kind \in {"enable", "disable", "enableOnly"}
+    /\ active' = [active EXCEPT ![i] =
+                    CASE kind = "enable" -> @ \cup ChainHit(i, c, names)
+                      [] kind = "disable" -> @ \ ChainHit(i, c, names)
+                      [] kind = "enableOnly" -> (@ \ {U(c, n) : n \in RegNames(i, c)}) \cup ChainHit(i, c, names)]
+    /\ UNCHANGED <<live, plug, opts, rr, ctx, env>>
+    /\ Log([op |-> "chain_toggle", i |-> i, kind |-> kind, chain |-> c, names |-> names])
+
 (* the three public routes to write an option are one action *)
 SetOpt(i, route, kv) ==
     /\ live[i]
@@ -248,6 +263,8 @@ Next ==
     \/ \E i \in Inst : Use(i)
     \/ \E i \in Inst, ns \in NameSets, ign \in BOOLEAN : Toggle("enable", i, ns, ign)
     \/ \E i \in Inst, ns \in NameSets, ign \in BOOLEAN : Toggle("disable", i, ns, ign)
+    \/ \E i \in Inst, ns \in NameSets, c \in ChainToggleChains, k \in {"enable", "disable", "enableOnly"} :
+           ChainToggle(k, i, c, ns)
     \/ \E i \in Inst, route \in {"item", "attr"}, kv \in OptChoices : SetOpt(i, route, kv)
     \/ \E i \in Inst, n \in RRNames : AddRenderRule(i, n)
     \/ \E i \in Inst : EnterReset(i)
